@@ -533,17 +533,19 @@ class IOSupport:
     # TODO: use built-in function for extracting ref seq
     def check_sites_are_canonical(self, read_introns, gene_info, strand):
         for intron in read_introns:
-            if intron not in gene_info.canonical_sites:
+            # the answer depends on the strand, an intron may be shared by features from opposite strands
+            site_key = (intron, strand)
+            if site_key not in gene_info.canonical_sites:
                 intron_left_pos = intron[0] - gene_info.all_read_region_start
                 intron_right_pos = intron[1] - gene_info.all_read_region_start
                 left_site = gene_info.reference_region[intron_left_pos:intron_left_pos+2]
                 right_site = gene_info.reference_region[intron_right_pos - 1:intron_right_pos + 1]
                 if strand == '+':
-                    gene_info.canonical_sites[intron] = (left_site, right_site) in CANONICAL_FWD_SITES
+                    gene_info.canonical_sites[site_key] = (left_site, right_site) in CANONICAL_FWD_SITES
                 else:
-                    gene_info.canonical_sites[intron] = (left_site, right_site) in CANONICAL_REV_SITES
+                    gene_info.canonical_sites[site_key] = (left_site, right_site) in CANONICAL_REV_SITES
 
-            if not gene_info.canonical_sites[intron]:
+            if not gene_info.canonical_sites[site_key]:
                 return False
         return True
 
